@@ -30,7 +30,7 @@ def shards(tier):
 def floors(tier):
     return {"histories": 200, "probes_compared_fresh": 2000, "probes_compared_reference": 1000,
             "histories_with_warm_capacity_cache_before_switch": 100, "histories_with_atom_cache_growth": 100,
-            "set:hashseeds": 5, "histories_with_rejected_update": 100, "histories_with_caller_mutation": 100}
+            "set:hashseeds": 5, "histories_with_rejected_update": 100, "histories_with_caller_mutation": 100, "soak_distinct_symbols": 100000}
 
 
 ELS_SAT = ["S", "P", "N", "C", "O", "Cl", "B", "Fe", "Xe", "Zr", "Si", "I", "N+1", "S+1", "P-1", "O+1", "C-1", "Sn", "As", "Se"]
@@ -71,6 +71,13 @@ def run(ctx):
         pool_e.append(spell(m, rng)[0])
     pool_e += ["O=s1cccc1", "c1ccs(=O)cc1", "O=p1ccccc1", "c1ccp(=O)(C)cc1", "O=s1(=O)cccc1", "c1cc[se](=O)c1", "Cn1cccc1", "O=[n+]1ccccc1"]
     M = ApiModel(ctx, sf, check_model=False)
+    if ctx.shard % 4 == 1:
+        # a long-lived process: very many distinct symbols and atoms have gone through both translators
+        for k in range(140000):
+            call_guard(lambda: sf.decoder("[%dC][%dN+1][O]" % (k, k % 977)), expected=(sf.DecoderError,))
+        for k in range(20000):
+            call_guard(lambda: sf.encoder("[%dCH2][%dO-]" % (k, k % 313), strict=False), expected=(sf.EncoderError,))
+        ctx.count("soak_distinct_symbols", 140000)
     try:
         for h in range(80 if quick else 4000):
             M.reset()
